@@ -545,6 +545,10 @@ def rule_same_file(ctx, m):
         ctx.floor(f'C03-R1d/{callee}', len(calls), 1, f'call of {callee}')
         for c in calls:
             sp = c.args[sp_pos] if len(c.args) > sp_pos else kwarg(c, 'species')
+            if sp is None:
+                ctx.ob('C03-R1d', fi, f'{callee}: no species list passed', False,
+                       'the file\'s own species list is not handed to the writer/reader', line=c.lineno)
+                continue
             var = c.args[0]
             # species side
             spx = sp
